@@ -46,7 +46,7 @@ LEVELS = {
     },
     "C01": {
         "text": "Proof (Coq) of publish's control flow on the directory model: a batch repeating a label is rejected without effect, a batch of re-submissions returns the unchanged epoch hash, a changing publish advances the epoch by exactly one and returns the new tree's root hash. The functional core is a machine-checked refinement theorem: for every history of batches of distinct 256-bit labels and every hash configuration, the tree built by the model of batch_insert_nodes (binary-search partition on sorted sets included) is canonical, holds exactly the prescribed leaves (label, value, epoch of insertion) with correct last_epoch / min_descendant_epoch annotations, and its root hash equals the hash of the specification trie defined independently of the algorithm. The same equation is re-evaluated on the implementation on every run (specification hash recomputed from the publish history alone, bit for bit, both configurations) and the whole database is compared with the model after every publish.",
-        "note": TB + "The step from publish requests to batches of distinct labels (VRF outputs do not collide; derive_all) is covered by the state correspondence, not by a theorem.",
+        "note": TB + "Directory level (C01_directory_always_spec): after any sequence of requests the directory's tree is the specification trie over its leaves and the served epoch hash is its hash, under the premise that VRF outputs are well-formed 256-bit labels that do not collide (C18).",
     },
     "C02": {
         "text": "Proof (Coq): unpublished labels are refused; every returned lookup proof reports the label's latest (value, version, epoch) together with the current epoch hash and its existence and marker membership proofs verify against that hash for every tree and hash function. Lookup generation and the full client verifier are modelled and tied to the code (structural equality of proofs, equality of verdicts and results) over random histories with forced power-of-two versions; every label is looked up (single and batched) after queried epochs and compared with an independent truth table.",
